@@ -24,7 +24,7 @@ BUILD = os.path.join(VERIF, ".build", "celer")
 RELATED = {
     "C14": ["C01", "C05"], "C10": ["C11", "C03", "C09"], "C09": ["C12", "C03", "C19"],
     "C01": ["C05", "C04", "C16"], "C05": ["C01", "C14"], "C04": ["C01", "C16"], "C16": ["C02", "C04"],
-    "C15": ["C20", "C01"], "C11": ["C03"], "C19": ["C03"], "C03": ["C11", "C05"], "C02": ["C16"],
+    "C15": ["C20", "C01"], "C11": ["C03"], "C19": ["C03"], "C03": ["C12", "C11", "C05"], "C02": ["C16"],
     "C06": ["C02", "C13"], "C17": ["C06"], "C20": ["C15"], "C08": ["C05"], "C07": ["C17"],
 }
 
